@@ -92,14 +92,14 @@ type Inst struct {
 
 // OpResult is what an op returned.
 type OpResult struct {
-	Err     bool     `json:"err,omitempty"`
-	Msg     string   `json:"msg,omitempty"`
-	Calls   []Res    `json:"calls,omitempty"`
-	After   []Res    `json:"after,omitempty"`
-	Panic   string   `json:"panic,omitempty"`
-	Faulted bool     `json:"faulted,omitempty"`
-	Notes   []string `json:"notes,omitempty"` // oracle complaints about the op's own outcome
-	Bad     []Mismatch `json:"-"`             // calls whose result the model does not allow
+	Err     bool       `json:"err,omitempty"`
+	Msg     string     `json:"msg,omitempty"`
+	Calls   []Res      `json:"calls,omitempty"`
+	After   []Res      `json:"after,omitempty"`
+	Panic   string     `json:"panic,omitempty"`
+	Faulted bool       `json:"faulted,omitempty"`
+	Notes   []string   `json:"notes,omitempty"` // oracle complaints about the op's own outcome
+	Bad     []Mismatch `json:"-"`               // calls whose result the model does not allow
 }
 
 // OpenInst opens a fresh database.
@@ -136,6 +136,7 @@ func (in *Inst) Discard() {
 var errBody = errors.New("verif: body error")
 
 func entrySize(c Call) int64 {
+	c = c.Dec()
 	v := len(c.V)
 	if c.Big > 0 {
 		v = c.Big
@@ -473,6 +474,7 @@ func zopt(c Call) *zset.GetByScoreRangeOptions {
 
 // ExecCall performs one API call on a real transaction and normalises the result.
 func ExecCall(tx *nutsdb.Tx, c Call) (r Res) {
+	c = c.Dec()
 	defer func() {
 		if p := recover(); p != nil {
 			r = Res{Err: true, Panic: fmt.Sprintf("%s: %v", c.F, p)}
